@@ -181,9 +181,17 @@ fn judge(t: i32, word: &[u8], route: &str, out: &Outcome, read: &[(&str, Pairs)]
         return;
     }
     // the reader returns the accepted pairs, in order, shape i with row i
-    let want: Vec<(Option<usize>, Option<usize>)> = accepted.iter().map(|&i| (Some(i), Some(i))).collect();
+    let want_all: Vec<(Option<usize>, Option<usize>)> = accepted.iter().map(|&i| (Some(i), Some(i))).collect();
     for (rname, got) in read {
         rep.count("read_backs_compared", 1);
+        // the subsequence an adaptor route must return
+        let want: Vec<(Option<usize>, Option<usize>)> = match *rname {
+            "iter.skip(1)" => want_all.iter().skip(1).cloned().collect(),
+            "iter.step_by(2)" => want_all.iter().step_by(2).cloned().collect(),
+            "iter.nth(2)" => want_all.iter().skip(2).take(1).cloned().collect(),
+            "iter_as.skip(2)" => want_all.iter().skip(2).cloned().collect(),
+            _ => want_all.clone(),
+        };
         match got {
             Err(e) => rep.violation(&format!("pairing:{}:error", rname), case, detail(format!("{} failed: {}", rname, e))),
             Ok(p) => {
@@ -233,7 +241,12 @@ fn run_cursor(t: i32, other: i32, word: &[u8], seed: u64, case: &str, rep: &mut 
         };
         let r1 = pairs_of(mk().and_then(|mut r| r.read()));
         let r2 = pairs_of(mk().and_then(|mut r| r.iter_shapes_and_records().collect::<Result<Vec<_>, Error>>()));
-        vec![("Reader::read", r1), ("Reader::iter_shapes_and_records", r2)]
+        // std adaptors over the pair iterator (they use nth / fold / size_hint of the iterator)
+        let r3 = pairs_of(mk().and_then(|mut r| r.iter_shapes_and_records().skip(1).collect::<Result<Vec<_>, Error>>()));
+        let r4 = pairs_of(mk().and_then(|mut r| r.iter_shapes_and_records().step_by(2).collect::<Result<Vec<_>, Error>>()));
+        let r5 = pairs_of(mk().and_then(|mut r| r.iter_shapes_and_records().nth(2).into_iter().collect::<Result<Vec<_>, Error>>()));
+        let r6 = pairs_of(mk().and_then(|mut r| r.iter_shapes_and_records_as::<Shape, Record>().skip(2).collect::<Result<Vec<_>, Error>>()));
+        vec![("Reader::read", r1), ("Reader::iter_shapes_and_records", r2), ("iter.skip(1)", r3), ("iter.step_by(2)", r4), ("iter.nth(2)", r5), ("iter_as.skip(2)", r6)]
     });
     match read {
         Ok(read) => judge(t, word, "cursor", &out, &read, case, rep),
